@@ -427,7 +427,7 @@ func helperResultDesc(call *ssa.Call, h *ssa.Function, idx int, rec func(ssa.Val
 			if idx >= len(r.Results) {
 				return "", false
 			}
-			s := rec(r.Results[idx])
+			s := rec(retVal(r, idx)) // looks through the result slots of a helper with defers
 			if !dup[s] {
 				dup[s] = true
 				es = append(es, s)
